@@ -23,7 +23,7 @@ func init() {
 			"non-trivial = the value has a collection or a string needing an escape or a number outside float64; distinct by generated-source hash",
 		Assumptions: []string{"cty conversion (convert.Convert) and RawEquals define value equality", "hclsyntax parsing/evaluation of literals (monitored by C01/C02)"},
 		Quick:       Plan{Batches: 16, PerBatch: 2500, MinNonTrivial: 10000},
-		Thorough:    Plan{Batches: 64, PerBatch: 40000, MinNonTrivial: 400000},
+		Thorough:    Plan{Batches: 64, PerBatch: 80000, MinNonTrivial: 400000},
 		Case:        c11Case,
 	})
 }
